@@ -110,6 +110,8 @@ def concrete_run(h, cfg, assignment):
     err = None
     try:
         h.fn(c, **cfg)
+    except sym.Stop:
+        pass
     except (sym.Abort, sym.BoundExceeded):
         err = "aborted"
     except sym.HarnessError as e:
